@@ -920,8 +920,9 @@ def doc_top(m: M, n: Node) -> Node:
 
 
 def meta_applies(m: M, top: Node) -> bool:
-    """The <meta> pragma is consulted in HTML documents, and in XML ones only for a detached XHTML html element."""
-    return not m.is_xml or (top is not None and namespace(top) == NS_XHTML and name(top) == 'html')
+    """C13: the content-language pragma is consulted in HTML and XHTML documents (every document the matcher treats as HTML), never in
+    other XML."""
+    return m.is_html
 
 
 def first_named(m: M, seq: SeqNode, i: int, tag: str) -> Node:
@@ -956,6 +957,10 @@ def metas_from(m: M, head: Node, seq: SeqNode, i: int) -> OptStr:
 
 
 def html_of(m: M, top: Node) -> Node:
+    """The html element of the document whose topmost node is top: top itself (a detached tree, the document inside an iframe), else
+    the first html child of top (the BeautifulSoup object)."""
+    if top is not None and tag_name(m, top) == 'html' and is_html_el(m, top):
+        return top
     return first_named(m, tag_children(m, top, m.is_html), 0, 'html')
 
 
